@@ -191,6 +191,10 @@ theorem relInv_step (hist : List Ev) (s : S) (e : Ev) (s' : S) (II : IdInv hist 
                intro hq; subst hq
                rename_i sl' hsl' hop'
                rw [h0] at hsl'; cases hsl'; exact absurd (hop'.symm.trans h1) hop)
+      | quiescent =>
+        simp only [step] at h; split at h
+        · simp only [Option.some.injEq] at h; subst h; exact Or.inr hr
+        · simp at h
   · -- the PUBREL is this event
     simp only [isRel] at hrel; subst hrel
     obtain ⟨h1, e1, h2, heq, ⟨pk, hpk, hreq⟩, _⟩ := c1
@@ -390,6 +394,10 @@ theorem slot_step {s s' : S} {e : Ev} (h : step s e = some s') {p : Nat} {sl : S
             · exact Or.inr ⟨sl, by simp [upd, hq, hs], .same⟩
           · simp only [Option.some.injEq] at h; subst h; exact Or.inr ⟨sl, hs, .same⟩
         · simp only [Option.some.injEq] at h; subst h; exact Or.inr ⟨sl, hs, .same⟩
+  | quiescent =>
+    simp only [step] at h; split at h
+    · simp only [Option.some.injEq] at h; subst h; exact Or.inr ⟨sl, hs, .same⟩
+    · simp at h
 
 theorem consume_okBefore (sl : Slot) (a : Ack) : (consume sl a).okBefore = sl.okBefore := by
   unfold consume; repeat' split
@@ -627,6 +635,10 @@ theorem bodyInv_step (hist : List Ev) (s : S) (e : Ev) (s' : S) (II : IdInv hist
     all_goals first | (simp at h; done) | skip
     all_goals simp only [Option.some.injEq] at h; subst h
     all_goals exact body_keep I rfl (by intro pk he; cases he)
+  | quiescent =>
+    simp only [step] at h; split at h
+    · simp only [Option.some.injEq] at h; subst h; exact body_keep I rfl (by intro pk he; cases he)
+    · simp at h
 
 theorem bodyInv_reach {tr : List Ev} {s : S} (h : run init tr = some s) : BodyInv tr s :=
   inv_reach2 IdInv BodyInv idInv_init (by intro op b h; obtain ⟨pk, hm, _⟩ := h; simp at hm) idInv_step bodyInv_step tr s h
